@@ -32,11 +32,175 @@ pub enum Scenario {
     },
     /// (b) serde round trip of generated frames through log, sidecar and snapshot
     RoundTrip { seed: u64, count: u32 },
+    /// (c) whole-engine runs: what live subscribers received, the log, the per-thread sidecar and
+    /// the session / task snapshots written by the real runs must agree frame for frame
+    Engine { cfg: crate::esim::ProviderCfg, script: Vec<crate::esim::Resp>, inputs: Vec<EngineInput> },
+}
+
+#[derive(Clone, Debug, Serialize, Deserialize, PartialEq)]
+pub enum EngineInput {
+    Session(crate::checks::c07::Content),
+    ThreadPost(crate::checks::c07::Content),
+    Task(String),
+}
+
+fn generate_engine(run_seed: u64) -> Scenario {
+    use crate::checks::c07::Content;
+    let mut rng = Rng::derive(run_seed, "c03-engine");
+    let mut uniq = 0u64;
+    let cfg = crate::esim::ProviderCfg { tool_choice: crate::checks::c07::gen_tool_choice(&mut rng), stateless_history: rng.chance(1, 3), ..Default::default() };
+    let mut script = Vec::new();
+    for i in 0..rng.range(1, 3) {
+        let r = crate::checks::c07::gen_resp(&mut rng, &mut uniq, true, i);
+        script.push(r);
+    }
+    let last = crate::checks::c07::gen_resp(&mut rng, &mut uniq, false, 9);
+    script.push(last);
+    let content = |rng: &mut Rng, u: u64| match rng.below(4) {
+        0 | 1 => Content::Prompt(format!("question {u} with ünïcode and \u{2028} separators")),
+        2 => Content::Tool { tool: "bash".into(), args: json!({"command": format!("echo out{u}; echo err{u} 1>&2; printf 'tab\\there'")}), timeout_ms: None },
+        _ => Content::Tool { tool: "write".into(), args: json!({"path": format!("f{u}.txt"), "content": "x\n"}), timeout_ms: None },
+    };
+    let mut inputs = Vec::new();
+    for u in 0..rng.range(1, 4) {
+        inputs.push(match rng.below(5) {
+            0 | 1 => EngineInput::Session(content(&mut rng, u)),
+            2 | 3 => EngineInput::ThreadPost(content(&mut rng, u)),
+            _ => EngineInput::Task(format!("echo task{u}; echo e{u} 1>&2; exit {}", rng.below(3))),
+        });
+    }
+    Scenario::Engine { cfg, script, inputs }
+}
+
+fn engine_run(cfg: &crate::esim::ProviderCfg, script: &[crate::esim::Resp], inputs: &[EngineInput], env: &Env) -> (Outcome, RunStats) {
+    use crate::esim::Engine;
+    use std::sync::atomic::Ordering;
+    let mut stats = RunStats::default();
+    stats.case_hash = crate::prng::fnv1a(serde_json::to_string(&(cfg, script, inputs)).unwrap_or_default().as_bytes());
+    let engine = match Engine::new(&env.root.join("e"), cfg, script.to_vec(), true) {
+        Ok(e) => e,
+        Err(e) => return (Outcome::Harness(e), stats),
+    };
+    let res: Result<Option<Violation>, String> = (|| {
+        let (_, v) = engine.call_json("POST", "/threads/ensure", None)?;
+        let tid = v["thread_id"].as_str().unwrap_or("").to_string();
+        // live subscribers: the thread from the start, each session/task as soon as it exists
+        let thread_sub = crate::checks::c06::spawn_sub(&engine, &format!("/threads/{tid}/events"), crate::checks::c06::When::BeforeStart);
+        engine.settle(2);
+        let mut streams: Vec<(String, &'static str, String, crate::checks::c06::Sub)> = Vec::new(); // id, kind, snapshot path, sub
+        let mut run_sessions: Vec<String> = Vec::new();
+        for inp in inputs {
+            match inp {
+                EngineInput::Session(c) => {
+                    let (st, v) = engine.call_json("POST", "/sessions", None)?;
+                    if st != 201 {
+                        return Err(format!("create session: {st}"));
+                    }
+                    let sid = v["session_id"].as_str().unwrap_or("").to_string();
+                    let sub = crate::checks::c06::spawn_sub(&engine, &format!("/sessions/{sid}/events"), crate::checks::c06::When::BeforeStart);
+                    engine.settle(2);
+                    let (st, _) = engine.call("POST", &format!("/sessions/{sid}/input"), Some(json!({"input": c.render(&[])})))?;
+                    if st != 202 {
+                        return Err(format!("input: {st}"));
+                    }
+                    streams.push((sid.clone(), "session", format!("snapshots/{sid}.json"), sub));
+                }
+                EngineInput::ThreadPost(c) => {
+                    let (st, v) = engine.call_json("POST", &format!("/threads/{tid}/messages"), Some(json!({"content": c.render(&[])})))?;
+                    if st != 202 {
+                        return Err(format!("post: {st}"));
+                    }
+                    let sid = v["session_id"].as_str().unwrap_or("").to_string();
+                    let sub = crate::checks::c06::spawn_sub(&engine, &format!("/sessions/{sid}/events"), crate::checks::c06::When::BeforeStart);
+                    run_sessions.push(sid.clone());
+                    streams.push((sid.clone(), "session", format!("snapshots/{sid}.json"), sub));
+                }
+                EngineInput::Task(cmd) => {
+                    let (st, v) = engine.call_json("POST", "/tasks", Some(json!({"tool": "bash", "args": {"command": cmd}})))?;
+                    if st != 201 {
+                        return Err(format!("create task: {st}"));
+                    }
+                    let id = v["task_id"].as_str().unwrap_or("").to_string();
+                    let sub = crate::checks::c06::spawn_sub(&engine, &format!("/tasks/{id}/events"), crate::checks::c06::When::BeforeStart);
+                    streams.push((id.clone(), "task", format!("task_snapshots/{id}.json"), sub));
+                }
+            }
+        }
+        let ids: Vec<(String, &'static str)> = streams.iter().map(|s| (s.0.clone(), s.1)).collect();
+        engine.wait_until(std::time::Duration::from_secs(60), |t| {
+            ids.iter().all(|(id, kind)| match *kind {
+                "session" => t.frames.iter().any(|f| f.stream_id == *id && f.ty == "session_ended"),
+                _ => t.frames.iter().any(|f| f.stream_id == *id && f.ty == "tool_task_status" && matches!(f.s("status"), Some("exited") | Some("failed") | Some("cancelled"))),
+            }) && run_sessions.iter().all(|s| t.frames.iter().any(|f| f.ty == "continuity_run_ended" && f.s("run_session_id") == Some(s.as_str())))
+        })?;
+        // snapshots are written right after the terminal frame
+        let data = engine.data.clone();
+        let start = std::time::Instant::now();
+        while start.elapsed() < std::time::Duration::from_secs(5) && !streams.iter().all(|s| data.join(&s.2).exists()) {
+            engine.settle(5);
+        }
+        engine.settle(20);
+        let truth = model::parse_truth_file(&data.join("events.jsonl")).map_err(|e| format!("truth: {}", e.reason))?;
+        let canon_list = |v: &[Value]| -> Vec<String> { v.iter().map(model::canon).collect() };
+        for (id, kind, snap, sub) in &streams {
+            let log: Vec<Value> = truth.stream(kind, id).iter().map(|f| f.v.clone()).collect();
+            stats.bump("engine_streams_compared", 1);
+            stats.bump("engine_frames_compared", log.len() as u64);
+            // live
+            let live = crate::checks::c06::parse_sse_frames(&sub.buf.lock().unwrap());
+            if sub.status.load(Ordering::SeqCst) == 200 && canon_list(&live) != canon_list(&log) {
+                let i = live.iter().zip(log.iter()).position(|(a, b)| model::canon(a) != model::canon(b)).unwrap_or(live.len().min(log.len()));
+                return Ok(Some(Violation { class: "live_differs_from_log".into(), signature: format!("live_differs_from_log:engine:{kind}"), detail: format!("{kind} {id}: subscriber received {} frames, log holds {}; first difference at #{i}: live {} vs log {}", live.len(), log.len(), live.get(i).map(|v| v.to_string()).unwrap_or_default().chars().take(300).collect::<String>(), log.get(i).map(|v| v.to_string()).unwrap_or_default().chars().take(300).collect::<String>()) }));
+            }
+            // snapshot
+            let sp = data.join(snap);
+            let Ok(bytes) = std::fs::read(&sp) else {
+                return Ok(Some(Violation { class: "snapshot_missing".into(), signature: format!("snapshot_missing:engine:{kind}"), detail: format!("{kind} {id} ended but {} does not exist", sp.display()) }));
+            };
+            let snap_v: Vec<Value> = serde_json::from_slice(&bytes).map_err(|e| format!("snapshot {}: {e}", sp.display()))?;
+            if canon_list(&snap_v) != canon_list(&log) {
+                let i = snap_v.iter().zip(log.iter()).position(|(a, b)| model::canon(a) != model::canon(b)).unwrap_or(snap_v.len().min(log.len()));
+                return Ok(Some(Violation { class: "snapshot_differs_from_log".into(), signature: format!("snapshot_differs_from_log:engine:{kind}"), detail: format!("{kind} {id}: snapshot holds {} frames, log holds {}; first difference at #{i}: snapshot {} vs log {}", snap_v.len(), log.len(), snap_v.get(i).map(|v| v.to_string()).unwrap_or_default().chars().take(300).collect::<String>(), log.get(i).map(|v| v.to_string()).unwrap_or_default().chars().take(300).collect::<String>()) }));
+            }
+        }
+        // the thread: live vs log vs sidecar
+        let log: Vec<Value> = truth.stream("continuity", &tid).iter().map(|f| f.v.clone()).collect();
+        let want = log.len();
+        let start = std::time::Instant::now();
+        while start.elapsed() < std::time::Duration::from_secs(5) && crate::checks::c06::parse_sse_frames(&thread_sub.buf.lock().unwrap()).len() < want {
+            engine.settle(5);
+        }
+        let live = crate::checks::c06::parse_sse_frames(&thread_sub.buf.lock().unwrap());
+        if canon_list(&live) != canon_list(&log) {
+            return Ok(Some(Violation { class: "live_differs_from_log".into(), signature: "live_differs_from_log:engine:continuity".into(), detail: format!("thread {tid}: subscriber received {} frames, log holds {}", live.len(), log.len()) }));
+        }
+        let side = std::fs::read_to_string(data.join("continuity_streams").join(format!("{tid}.jsonl"))).unwrap_or_default();
+        let side_v: Vec<Value> = side.lines().filter_map(|l| serde_json::from_str(l).ok()).collect();
+        if canon_list(&side_v) != canon_list(&log) {
+            return Ok(Some(Violation { class: "sidecar_differs_from_log".into(), signature: "sidecar_differs_from_log:engine".into(), detail: format!("thread {tid}: sidecar holds {} frames, log holds {}", side_v.len(), log.len()) }));
+        }
+        stats.bump("engine_streams_compared", 1);
+        stats.nontrivial = true;
+        for s in &streams {
+            s.3.handle.abort();
+        }
+        thread_sub.handle.abort();
+        Ok(None)
+    })();
+    drop(engine);
+    match res {
+        Ok(None) => (Outcome::Ok, stats),
+        Ok(Some(v)) => (Outcome::Violation(v), stats),
+        Err(e) => (Outcome::Harness(e), stats),
+    }
 }
 
 pub struct C03;
 
 pub fn generate(run_seed: u64, tier: Tier) -> Scenario {
+    if Rng::derive(run_seed, "c03-kind").chance(1, 40) {
+        return generate_engine(run_seed);
+    }
     let mut rng = Rng::derive(run_seed, "ops");
     if rng.chance(1, 2) {
         return Scenario::RoundTrip { seed: rng.next_u64(), count: rng.range(10, if tier == Tier::Quick { 60 } else { 200 }) as u32 };
@@ -426,6 +590,11 @@ pub fn execute(sc: &Scenario, env: &Env) -> (Outcome, RunStats) {
             s.bump("round_trip_runs", 1);
             (o, s)
         }
+        Scenario::Engine { cfg, script, inputs } => {
+            let (o, mut s) = engine_run(cfg, script, inputs, env);
+            s.bump("engine_runs", 1);
+            (o, s)
+        }
     }
 }
 
@@ -460,6 +629,22 @@ impl Check for C03 {
         };
         let mut out: Vec<Scenario> = Vec::new();
         match &sc {
+            Scenario::Engine { cfg, script, inputs } => {
+                for i in (0..inputs.len()).rev() {
+                    if inputs.len() > 1 {
+                        let mut c = inputs.clone();
+                        c.remove(i);
+                        out.push(Scenario::Engine { cfg: cfg.clone(), script: script.clone(), inputs: c });
+                    }
+                }
+                for i in (0..script.len()).rev() {
+                    if script.len() > 1 {
+                        let mut c = script.clone();
+                        c.remove(i);
+                        out.push(Scenario::Engine { cfg: cfg.clone(), script: c, inputs: inputs.clone() });
+                    }
+                }
+            }
             Scenario::RoundTrip { seed, count } => {
                 if *count > 2 {
                     out.push(Scenario::RoundTrip { seed: *seed, count: count / 2 });
@@ -480,12 +665,15 @@ impl Check for C03 {
         }
         out.into_iter().map(|s| serde_json::to_value(s).unwrap()).collect()
     }
+    fn attempts(&self) -> u32 {
+        2
+    }
     fn rule(&self) -> String {
-        "half of the evaluations are cross-copy runs: 1-3 store actors under the baton scheduler execute 4-24 generated operations while a subscriber attached before the workload collects the broadcast; a third of them inject ENOSPC into chosen writes of events.jsonl; afterwards every live frame and every sidecar line must be, field for field, a frame of the parsed log, and in fault-free runs the per-thread sequences of live frames, sidecar lines and log frames must be identical. The other half are round-trip runs (input generation): 10-200 frames over all 44 frame variants with optional fields absent/present, empty collections, U+2028/NUL, 100 KiB strings, nested JSON, u64::MAX are written through EventLog::append and read back through replay, per-stream replay, snapshot write/read/verify and the sidecar (truth path then sidecar path), compared as JSON, as stream assignment and as typed values; distinct = schedule hash / seed; non-trivial = every round-trip run, and cross runs with >=5 live frames and a context switch".into()
+        "1 in 40 evaluations is a whole-engine run (real router, scripted provider with all fault kinds, 1-4 inputs: thread-less sessions, thread posts, background tasks, each watched by a live SSE subscriber attached before it starts, plus one on the thread): after quiescence the frames each subscriber received, the stream in the log, the session / task snapshot written by the real run and the thread's sidecar must be identical as JSON, frame for frame. Of the rest, half are cross-copy runs: 1-3 store actors under the baton scheduler execute 4-24 generated operations while a subscriber attached before the workload collects the broadcast; a third of them inject ENOSPC into chosen writes of events.jsonl; afterwards every live frame and every sidecar line must be, field for field, a frame of the parsed log, and in fault-free runs the per-thread sequences of live frames, sidecar lines and log frames must be identical. The other half are round-trip runs (input generation): 10-200 frames over all 44 frame variants with optional fields absent/present, empty collections, U+2028/NUL, 100 KiB strings, nested JSON, u64::MAX are written through EventLog::append and read back through replay, per-stream replay, snapshot write/read/verify and the sidecar (truth path then sidecar path), compared as JSON, as stream assignment and as typed values; distinct = schedule hash / seed; non-trivial = every round-trip run, and cross runs with >=5 live frames and a context switch".into()
     }
     fn assumptions(&self) -> Vec<String> {
         vec![
-            "session snapshots written by real runs are compared with the log in the whole-engine checks; here snapshots are written by the harness through the public writer".into(),
+            "in store-level runs snapshots are written by the harness through the public writer; snapshots written by real runs are compared in the whole-engine variant (real time, see C07)".into(),
             "after an injected log-write error only the subset clauses are judged (nothing outside the log), not sequence equality".into(),
         ]
     }
